@@ -316,13 +316,14 @@ Plan(cls, shape, a, b, ok) ==
          [p |-> IF dbg = "unloaded" THEN <<RunIt("start")>> ELSE <<Resp(FALSE)>>, s |-> Keep]
     [] cls = "continue" ->
          [p |-> IF RespondAfter
-                  THEN (IF dbg = "stopped" THEN <<Enq(Ev("continued", "", 0)), Resp(TRUE), DrainIt, RunIt("cont")>>
+                  THEN (IF dbg = "stopped" THEN <<Enq(Ev("continued", "", 0)), Resp(TRUE), DrainIt,
+                                                  RunIt(IF ok THEN "cont" ELSE "contfail")>>
                                            ELSE <<Resp(FALSE)>>)
                   ELSE <<Enq(Ev("continued", "", 0)), Resp(TRUE), DrainIt>>
-                       \o (IF dbg = "stopped" THEN <<RunIt("cont")>> ELSE <<Resp(FALSE)>>),
+                       \o (IF dbg = "stopped" THEN <<RunIt(IF ok THEN "cont" ELSE "contfail")>> ELSE <<Resp(FALSE)>>),
           s |-> Keep]
     [] cls = "step" ->
-         [p |-> IF dbg = "stopped" THEN <<RunIt("step")>> ELSE <<Resp(FALSE)>>, s |-> Keep]
+         [p |-> IF dbg = "stopped" /\ ok THEN <<RunIt("step")>> ELSE <<Resp(FALSE)>>, s |-> Keep]   \* ~ok: the step itself fails
     [] cls = "pause" ->
          [p |-> IF dbg = "none" THEN <<Resp(FALSE)>> ELSE <<Resp(TRUE), Enq(Ev("stopped", "", 0))>>, s |-> Keep]
     [] cls = "restart" ->
@@ -356,7 +357,7 @@ Dispatch(a, b, ok) ==
          pl == Plan(r.cls, r.shape, a, b, ok)
      IN /\ r.cls \in Classes
         /\ (r.cls \notin QueryLike => a = 0 /\ b = 0)
-        /\ (r.cls \notin {"query", "goto"} => ok)
+        /\ (r.cls \notin {"query", "goto", "step", "continue"} => ok)
         /\ todo' = pl.p
         /\ dbg' = pl.s.dbg /\ mode' = pl.s.mode /\ bpset' = pl.s.bpset /\ termd' = pl.s.termd
         /\ gen' = pl.s.gen /\ phase' = pl.s.phase /\ minfo' = pl.s.minfo /\ left' = pl.s.left
@@ -406,7 +407,9 @@ ExecRefresh ==
 ExecRun(out, more) ==
   /\ ppc["sess"] = "exec" /\ todo # <<>> /\ Head(todo).k = "run"
   /\ LET how == Head(todo).how
-         n   == IF out = "exit" THEN left.pre + left.post ELSE more
+         base == IF how = "restart" /\ dbg = "exited" THEN Full ELSE left   \* lines the running process will print
+         n   == IF out = "exit" THEN base.pre + base.post ELSE more
+         live == how = "restart" /\ dbg = "stopped"
      IN
      /\ CASE how = "start" -> /\ out = (IF bpset THEN "stop" ELSE "exit")
                               /\ more = left.pre
@@ -416,24 +419,32 @@ ExecRun(out, more) ==
                               /\ more = left.pre
                               /\ todo' = StopReason(out)
                               /\ UNCHANGED gen
+          [] how = "contfail" -> \* continue_debugee_with_reason returns Err after the response went out:
+                                 \* as written run()'s error arm answers the same request a second time
+                                 /\ out = "stop" /\ more = 0
+                                 \* (candidate fix: no second response; the process is still stopped, say so)
+                                 /\ todo' = IF RespondAfter THEN <<Enq(Ev("stopped", "", 0)), DrainIt>> ELSE <<Resp(FALSE)>>
+                                 /\ UNCHANGED gen
           [] how = "step"  -> /\ more \in {0, left.pre + left.post}
                               /\ todo' = <<Enq(Ev("continued", "", 0)), Resp(TRUE)>>
                                          \o (IF out = "exit" THEN <<Enq(InternalExited), DrainIt>>
                                                              ELSE <<Enq(Ev("stopped", "", 0)), DrainIt>>)
                               /\ UNCHANGED gen
-          [] how = "restart" -> \* start_debugee_force: a started process is replaced and stops at its
-                                \* entry; a process that was never started just starts (like `start`)
-                                /\ IF dbg = "unloaded"
-                                     THEN out = (IF bpset THEN "stop" ELSE "exit") /\ more = left.pre /\ UNCHANGED gen
-                                     ELSE out = "stop" /\ more = 0 /\ gen' = gen + 1
+          [] how = "restart" -> \* start_debugee_force: a live (stopped) process is replaced and the stop is
+                                \* announced as `entry`; a process that is not running (never started, or
+                                \* exited) is (re)started and runs to its first stop or to its end
+                                /\ IF dbg = "stopped"
+                                     THEN out = "stop" /\ more = 0
+                                     ELSE out = (IF bpset THEN "stop" ELSE "exit") /\ more = base.pre
+                                /\ gen' = IF dbg = "unloaded" THEN gen ELSE gen + 1
                                 /\ todo' = <<Resp(TRUE)>> \o StopReason(out)
-     /\ dbg' = IF out = "exit" THEN "exited" ELSE "stopped"
-     /\ phase' = IF how = "restart" /\ dbg # "unloaded" THEN "pre" ELSE "post"
-     /\ bpset' = IF how = "restart" /\ dbg # "unloaded" THEN FALSE ELSE bpset
-     /\ left' = IF how = "restart" /\ dbg # "unloaded" THEN Full
-                ELSE IF n = left.pre + left.post THEN [pre |-> 0, post |-> 0]
-                ELSE IF n = 0 THEN left
-                ELSE [pre |-> 0, post |-> left.post]
+     /\ dbg' = IF out = "exit" THEN "exited" ELSE "stopped"   \* (a failed continue leaves the process stopped)
+     /\ phase' = IF live THEN "pre" ELSE IF how = "contfail" THEN phase ELSE "post"
+     /\ bpset' = IF live THEN FALSE ELSE bpset
+     /\ left' = IF live THEN Full
+                ELSE IF n = base.pre + base.post THEN [pre |-> 0, post |-> 0]
+                ELSE IF n = 0 THEN base
+                ELSE [pre |-> 0, post |-> base.post]
      /\ avail' = [f \in Fwd |-> avail[f] + n]
   /\ UNCHANGED <<seq, lock, wire, ppc, held, pending, reqlog, closed, phs, queue, termd, mode, cache, minfo,
                  mon, viol>>
